@@ -1,6 +1,378 @@
-//! C17 check (see /verif/DESIGN.md section 5 and /verif/mc/README-dev.md).
+//! C17 — the generated JavaScript binding denotes the same service interface.
+//! (see /verif/DESIGN.md section 5 and /verif/mc/README-dev.md)
+//!
+//! Subject: `candid_parser::bindings::javascript::compile(&TypeEnv, &Option<Type>)`.
+//! For every program of an explicitly enumerated space the .did text is parsed and checked
+//! with the real front end, compiled to JavaScript (twice: determinism), and the module text
+//! is evaluated by one long-running `node /verif/js/mock_idl.js` per worker (R9: a mock of
+//! the agent-js `IDL` builder). The type graph built by `idlFactory({IDL})` / `init({IDL})`
+//! is converted to reference-model terms and compared (R3 structural equality) with the
+//! program's denotation given by the generator (`Prog::to_model`) and, as a cross-check of
+//! the harness, with the real front end's own view through the bridge.
+mod families;
+mod jsview;
+mod names;
+
+use candid::types::{Type, TypeEnv};
+use mclib::bridge;
 use mclib::engine::{catch, finish, install_quiet_panic_hook, Ctx, Report, Tier};
-use serde_json::json;
+use mclib::progs::Prog;
+use refmodel::sub;
+use refmodel::ty::{Env, Ty};
+use serde_json::{json, Value};
+use std::collections::BTreeMap;
+use std::io::{BufRead, BufReader, Write};
+use std::process::{Child, ChildStdin, ChildStdout, Command, Stdio};
+use std::sync::Mutex;
+
+pub const MOCK: &str = "/verif/js/mock_idl.js";
+
+pub fn machinery(msg: &str) -> ! {
+    eprintln!("MACHINERY-FAILURE: {msg}");
+    std::process::exit(2)
+}
+
+fn node_bin() -> String {
+    if let Ok(p) = std::env::var("VERIF_NODE") {
+        return p;
+    }
+    if std::path::Path::new("/usr/bin/node").exists() {
+        "/usr/bin/node".into()
+    } else {
+        "node".into()
+    }
+}
+
+/// One long-running evaluator process (line protocol, strictly request/response).
+pub struct Node {
+    child: Child,
+    inp: Option<ChildStdin>,
+    out: BufReader<ChildStdout>,
+    next_id: u64,
+    pub evals: u64,
+}
+
+impl Node {
+    pub fn spawn() -> Node {
+        if !std::path::Path::new(MOCK).exists() {
+            machinery(&format!("{MOCK} is missing"));
+        }
+        let mut child = match Command::new(node_bin())
+            .arg(MOCK)
+            .stdin(Stdio::piped())
+            .stdout(Stdio::piped())
+            .stderr(Stdio::inherit())
+            .spawn()
+        {
+            Ok(c) => c,
+            Err(e) => machinery(&format!("cannot start node ({}): {e}", node_bin())),
+        };
+        let inp = child.stdin.take();
+        let out = BufReader::new(child.stdout.take().unwrap());
+        Node { child, inp, out, next_id: 0, evals: 0 }
+    }
+    pub fn eval(&mut self, js: &str, actor: bool) -> Value {
+        self.next_id += 1;
+        self.evals += 1;
+        let id = self.next_id;
+        let mut line = json!({"id": id, "js": js, "actor": actor}).to_string();
+        line.push('\n');
+        let w = self.inp.as_mut().unwrap();
+        if w.write_all(line.as_bytes()).and_then(|_| w.flush()).is_err() {
+            machinery("node evaluator died (write failed)");
+        }
+        let mut resp = String::new();
+        match self.out.read_line(&mut resp) {
+            Ok(n) if n > 0 => {}
+            _ => machinery("node evaluator died (no response)"),
+        }
+        let v: Value = match serde_json::from_str(&resp) {
+            Ok(v) => v,
+            Err(e) => machinery(&format!("node evaluator sent unparsable line: {e}: {resp}")),
+        };
+        if v["id"].as_u64() != Some(id) {
+            machinery(&format!("node evaluator out of sync: expected id {id}, got {}", v["id"]));
+        }
+        if v["stage"] == "mock" {
+            machinery(&format!("mock_idl.js internal error: {}", v["message"]));
+        }
+        v
+    }
+}
+impl Drop for Node {
+    fn drop(&mut self) {
+        self.inp.take();
+        let _ = self.child.wait();
+    }
+}
+
+#[derive(Clone, Debug)]
+pub struct Case {
+    pub prog: Prog,
+    /// print tuple-shaped records as `record { t0; t1 }` (labels become `Unnamed`)
+    pub shorthand: bool,
+    pub family: &'static str,
+}
+impl Case {
+    pub fn did(&self) -> String {
+        if self.shorthand {
+            names::did_shorthand(&self.prog)
+        } else {
+            self.prog.to_did()
+        }
+    }
+}
+
+#[derive(Clone, Debug, PartialEq, Eq)]
+pub struct Fail {
+    /// failure class: SyntaxError / ReferenceError / TypeError / ... (exception name),
+    /// type-differs, actor-not-service, panic, nondeterministic
+    pub class: String,
+    /// sub-kind with program specific names masked (part of the key)
+    pub kind: String,
+    pub detail: String,
+}
+
+#[derive(Default)]
+pub struct Obs {
+    pub rejected: Option<String>,
+    pub with_actor: bool,
+    pub is_class: bool,
+    pub fail: Option<Fail>,
+    pub js: Option<String>,
+    pub resp: Option<Value>,
+    pub harness: Option<String>,
+    pub info: Vec<String>,
+    pub compiles: u64,
+    pub node_evals: u64,
+}
+
+/// mask program specific names in an engine message: 'quoted' pieces and `<id> is not defined`
+pub fn mask(msg: &str) -> String {
+    let mut out = String::new();
+    let mut in_q = false;
+    for c in msg.chars() {
+        if c == '\'' {
+            if in_q {
+                out.push_str("_'");
+            } else {
+                out.push('\'');
+            }
+            in_q = !in_q;
+        } else if !in_q {
+            out.push(c);
+        }
+    }
+    if let Some(rest) = out.strip_suffix(" is not defined") {
+        if !rest.contains(' ') {
+            return "_ is not defined".into();
+        }
+    }
+    out
+}
+
+fn expected_parts(env: &Env, actor: &Ty, prefix: &str) -> (Env, Ty, Vec<Ty>) {
+    let f = |s: &str| format!("{prefix}{s}");
+    let e = env.rename(&f);
+    match actor.rename(&f) {
+        Ty::Class(args, s) => (e, *s, args),
+        other => (e, other, vec![]),
+    }
+}
+
+/// Compare the JS view with an expectation (environment already prefixed).
+fn judge(eenv: &Env, eservice: &Ty, einit: &[Ty], js: &jsview::JsView) -> Option<Fail> {
+    let merged = eenv.merge_disjoint(&js.env);
+    if !sub::equal(&merged, &js.service, eservice) {
+        let (kind, path) = jsview::diff(&merged, &js.service, eservice, "service")
+            .unwrap_or(("unknown".into(), "service".into()));
+        return Some(Fail { class: "type-differs".into(), kind, detail: format!("service type built by idlFactory differs from the program's: {path}") });
+    }
+    if js.init.len() != einit.len() {
+        return Some(Fail {
+            class: "type-differs".into(),
+            kind: "init-arity".into(),
+            detail: format!("init returns {} types, the class has {} init args", js.init.len(), einit.len()),
+        });
+    }
+    for (i, (j, e)) in js.init.iter().zip(einit).enumerate() {
+        if !sub::equal(&merged, j, e) {
+            let (kind, path) =
+                jsview::diff(&merged, j, e, &format!("init[{i}]")).unwrap_or(("unknown".into(), format!("init[{i}]")));
+            return Some(Fail { class: "type-differs".into(), kind, detail: format!("init arg {i} differs: {path}") });
+        }
+    }
+    if js.root_kind != "service" {
+        return Some(Fail {
+            class: "actor-not-service".into(),
+            kind: format!("root-is-{}", js.root_kind),
+            detail: format!(
+                "idlFactory returns a {} node, not the service type itself (agent-js iterates `service._fields` of the returned object)",
+                js.root_kind
+            ),
+        });
+    }
+    None
+}
+
+/// The whole pipeline for one program text. `model`: the generator's denotation (absent in
+/// replay, where the front end's own view is the expectation).
+pub fn pipeline(did: &str, model: Option<&(Env, Option<Ty>)>, node: &mut Node) -> Obs {
+    let mut o = Obs::default();
+    // --- real front end
+    let parsed = catch(|| did.parse::<candid_parser::IDLProg>());
+    let ast = match parsed {
+        Ok(Ok(a)) => a,
+        Ok(Err(e)) => {
+            o.rejected = Some(format!("parse: {e}"));
+            return o;
+        }
+        Err(p) => {
+            o.rejected = Some(format!("parse panicked: {p}"));
+            return o;
+        }
+    };
+    let mut te = TypeEnv::new();
+    let checked = catch(|| candid_parser::check_prog(&mut te, &ast));
+    let actor: Option<Type> = match checked {
+        Ok(Ok(a)) => a,
+        Ok(Err(e)) => {
+            o.rejected = Some(format!("check: {e}"));
+            return o;
+        }
+        Err(p) => {
+            o.rejected = Some(format!("check panicked: {p}"));
+            return o;
+        }
+    };
+    o.with_actor = actor.is_some();
+    // --- the front end's own view through the bridge
+    let renv = match bridge::from_real_env(&te) {
+        Ok(e) => e,
+        Err(e) => {
+            o.harness = Some(format!("bridge::from_real_env: {e}"));
+            return o;
+        }
+    };
+    let mut knots = Env::new();
+    let ractor = match actor.as_ref().map(|a| bridge::from_real_ty(a, &mut knots)).transpose() {
+        Ok(a) => a,
+        Err(e) => {
+            o.harness = Some(format!("bridge::from_real_ty(actor): {e}"));
+            return o;
+        }
+    };
+    o.is_class = matches!(ractor, Some(Ty::Class(..)));
+    // --- model vs real (harness consistency)
+    if let Some((menv, mactor)) = model {
+        let merged = menv.rename(&|s| format!("m.{s}")).merge_disjoint(&renv.rename(&|s| format!("r.{s}")));
+        for (k, t) in &menv.0 {
+            match renv.0.get(k) {
+                None => {
+                    o.harness = Some(format!("definition {k} missing in the checked environment"));
+                    return o;
+                }
+                Some(rt) => {
+                    if !sub::equal(&merged, &t.rename(&|s| format!("m.{s}")), &rt.rename(&|s| format!("r.{s}"))) {
+                        o.harness = Some(format!("definition {k}: generator model and front end disagree"));
+                        return o;
+                    }
+                }
+            }
+        }
+        match (mactor, &ractor) {
+            (None, None) => {}
+            (Some(m), Some(r)) => {
+                if !sub::equal(&merged, &m.rename(&|s| format!("m.{s}")), &r.rename(&|s| format!("r.{s}"))) {
+                    o.harness = Some("actor: generator model and front end disagree".into());
+                    return o;
+                }
+                if matches!(m, Ty::Class(..)) != matches!(r, Ty::Class(..)) {
+                    o.harness = Some("actor: class-ness differs between model and front end".into());
+                    return o;
+                }
+            }
+            _ => {
+                o.harness = Some("actor presence differs between model and front end".into());
+                return o;
+            }
+        }
+    }
+    // --- subject: compile twice
+    let c1 = catch(|| candid_parser::bindings::javascript::compile(&te, &actor));
+    let c2 = catch(|| candid_parser::bindings::javascript::compile(&te, &actor));
+    o.compiles = 2;
+    let js = match (c1, c2) {
+        (Ok(a), Ok(b)) => {
+            if a != b {
+                o.js = Some(a);
+                o.fail = Some(Fail { class: "nondeterministic".into(), kind: "two-compiles-differ".into(), detail: "two compile calls on the same input returned different text".into() });
+                return o;
+            }
+            a
+        }
+        (Err(p), _) | (_, Err(p)) => {
+            let loc = p.rsplit(" @ ").next().unwrap_or("").to_string();
+            o.fail = Some(Fail { class: "panic".into(), kind: loc, detail: format!("javascript::compile panicked: {p}") });
+            return o;
+        }
+    };
+    o.js = Some(js.clone());
+    // --- evaluate
+    let resp = node.eval(&js, actor.is_some());
+    o.node_evals = 1;
+    o.resp = Some(resp.clone());
+    if resp["ok"] != true {
+        let name = resp["name"].as_str().unwrap_or("Unknown").to_string();
+        let msg = resp["message"].as_str().unwrap_or("").to_string();
+        let stage = resp["stage"].as_str().unwrap_or("?");
+        o.fail = Some(Fail { class: name.clone(), kind: mask(&msg), detail: format!("{name} at stage {stage}: {msg}") });
+        return o;
+    }
+    if actor.is_none() {
+        if let Some(n) = resp["run"]["name"].as_str() {
+            o.info.push(format!("noactor-run:{n}"));
+        }
+        return o;
+    }
+    let view = match jsview::to_view(&resp) {
+        Ok(v) => v,
+        Err((kind, detail)) => {
+            o.fail = Some(Fail { class: "type-differs".into(), kind, detail });
+            return o;
+        }
+    };
+    o.info.extend(view.info.iter().cloned());
+    let ractor = ractor.unwrap();
+    let (eenv, esvc, einit) = expected_parts(&renv, &ractor, "r.");
+    let by_real = judge(&eenv, &esvc, &einit, &view);
+    if let Some((menv, Some(mactor))) = model {
+        let (eenv, esvc, einit) = expected_parts(menv, mactor, "m.");
+        let by_model = judge(&eenv, &esvc, &einit, &view);
+        let same = match (&by_model, &by_real) {
+            (None, None) => true,
+            (Some(a), Some(b)) => a.class == b.class && a.kind == b.kind,
+            _ => false,
+        };
+        if !same {
+            o.harness = Some(format!("verdict against the generator model ({by_model:?}) differs from the verdict against the front end's view ({by_real:?})"));
+            return o;
+        }
+        o.fail = by_model;
+    } else {
+        o.fail = by_real;
+    }
+    o
+}
+
+#[derive(Clone)]
+struct Failure {
+    case: Case,
+    did: String,
+    fail: Fail,
+    js: Option<String>,
+    resp: Option<Value>,
+}
 
 fn parse_args() -> (Tier, Option<String>, Vec<String>) {
     let args: Vec<String> = std::env::args().collect();
@@ -28,18 +400,264 @@ fn parse_args() -> (Tier, Option<String>, Vec<String>) {
     (tier, replay, rest)
 }
 
+fn check_node_available() {
+    match Command::new(node_bin()).arg("--version").output() {
+        Ok(o) if o.status.success() => {}
+        Ok(o) => machinery(&format!("`node --version` failed: {}", String::from_utf8_lossy(&o.stderr))),
+        Err(e) => machinery(&format!("node is not available ({}): {e}", node_bin())),
+    }
+    if !std::path::Path::new(MOCK).exists() {
+        machinery(&format!("{MOCK} is missing"));
+    }
+}
+
+fn replay(path: &str) -> i32 {
+    let body = match std::fs::read_to_string(path) {
+        Ok(b) => b,
+        Err(e) => machinery(&format!("cannot read {path}: {e}")),
+    };
+    let v: Value = match serde_json::from_str(&body) {
+        Ok(v) => v,
+        Err(e) => machinery(&format!("cannot parse {path}: {e}")),
+    };
+    let case = if v.get("case").is_some() { &v["case"] } else { &v };
+    let Some(did) = case["did"].as_str() else { machinery("replay file has no case.did") };
+    let want = case["class"].as_str().unwrap_or("");
+    let mut node = Node::spawn();
+    let o1 = pipeline(did, None, &mut node);
+    let o2 = pipeline(did, None, &mut node);
+    println!("--- program\n{did}");
+    if let Some(js) = &o1.js {
+        println!("--- generated JavaScript\n{js}");
+    }
+    if let Some(r) = &o1.rejected {
+        println!("NOT-REPRODUCED: the front end rejects the program: {r}");
+        return 0;
+    }
+    if let Some(h) = &o1.harness {
+        machinery(&format!("harness inconsistency during replay: {h}"));
+    }
+    if o1.fail != o2.fail {
+        println!("UNSTABLE: two runs observed {:?} and {:?}", o1.fail, o2.fail);
+        return 1;
+    }
+    match &o1.fail {
+        Some(f) => {
+            let same = want.is_empty() || want == f.class;
+            println!(
+                "REPRODUCED property=C17 class={} kind={} :: {}{}",
+                f.class,
+                f.kind,
+                f.detail,
+                if same { String::new() } else { format!(" (recorded class was {want})") }
+            );
+            1
+        }
+        None => {
+            println!("NOT-REPRODUCED: the generated JavaScript evaluates to the program's interface");
+            0
+        }
+    }
+}
+
+/// hidden helper: `c17 --emit file.did` prints the generated JS and the mock's answer
+fn emit(path: &str) -> i32 {
+    let did = std::fs::read_to_string(path).unwrap_or_else(|e| machinery(&format!("{path}: {e}")));
+    let mut node = Node::spawn();
+    let o = pipeline(&did, None, &mut node);
+    println!("rejected={:?}\nfail={:?}\ninfo={:?}\n--- js\n{}\n--- resp\n{}", o.rejected, o.fail, o.info, o.js.unwrap_or_default(), o.resp.unwrap_or(Value::Null));
+    0
+}
+
 fn main() {
     install_quiet_panic_hook();
-    let (tier, replay, _rest) = parse_args();
-    if let Some(path) = replay {
-        let _ = path;
-        eprintln!("replay not implemented yet");
-        std::process::exit(2);
+    let (tier, replay_file, rest) = parse_args();
+    check_node_available();
+    if let Some(path) = replay_file {
+        std::process::exit(replay(&path));
     }
-    let ctx = Ctx::new("C17", tier, tier.pick(120, 1200));
+    if rest.len() == 2 && rest[0] == "--emit" {
+        std::process::exit(emit(&rest[1]));
+    }
+    let ctx = Ctx::new("C17", tier, tier.pick(50, 560));
     let mut rep = Report::new();
-    let _ = catch(|| ());
-    rep.sample(json!("skeleton"));
-    let code = finish(&ctx, rep, "skeleton", &[], json!({}));
+    let failures: Mutex<Vec<Failure>> = Mutex::new(vec![]);
+    let harness: Mutex<Vec<String>> = Mutex::new(vec![]);
+    let rejected: Mutex<BTreeMap<String, (u64, String)>> = Mutex::new(BTreeMap::new());
+
+    let alpha = names::Alphabets::probe();
+    let fams = families::all(tier, &alpha);
+    let mut fam_stats = vec![];
+    let mut total_programs = 0u64;
+    for (fname, gen) in fams {
+        if ctx.timed_out() {
+            rep.level(fname, 0, false);
+            rep.notes.push(format!("family {fname}: not started (wall cap)"));
+            continue;
+        }
+        let cases: Vec<Case> = gen();
+        let n = cases.len() as u64;
+        total_programs += n;
+        let r = ctx.par_range(
+            fname,
+            n,
+            128,
+            Node::spawn,
+            |node, i, rep| {
+                let case = &cases[i as usize];
+                let did = case.did();
+                let model = case.prog.to_model();
+                let o = pipeline(&did, Some(&model), node);
+                rep.evaluations += 1;
+                rep.count("programs", 1);
+                rep.count("compile_calls", o.compiles);
+                rep.count("node_evaluations", o.node_evals);
+                rep.transitions += o.compiles + o.node_evals;
+                let fam = case.family;
+                if let Some(h) = o.harness {
+                    rep.outcome(&format!("{fam}:HARNESS"));
+                    let mut hs = harness.lock().unwrap();
+                    if hs.len() < 20 {
+                        hs.push(format!("[{fam}] {h}\n{did}"));
+                    }
+                    return;
+                }
+                if let Some(r) = o.rejected {
+                    rep.count("frontend_rejected", 1);
+                    rep.outcome(&format!("{fam}:frontend-rejected"));
+                    let mut rj = rejected.lock().unwrap();
+                    let e = rj.entry(fam.to_string()).or_insert((0, format!("{r} :: {did}")));
+                    e.0 += 1;
+                    return;
+                }
+                if o.with_actor {
+                    rep.count("programs_with_actor", 1);
+                    if o.is_class {
+                        rep.count("programs_with_class_actor", 1);
+                    }
+                }
+                for i in &o.info {
+                    rep.count(&format!("info:{i}"), 1);
+                }
+                match o.fail {
+                    None => {
+                        rep.traces_validated += 1;
+                        if o.with_actor && !case.prog.defs.is_empty() {
+                            rep.nontrivial += 1;
+                        }
+                        let cls = if !o.with_actor {
+                            "ok-noactor-valid-js"
+                        } else if o.is_class {
+                            "ok-class-equal"
+                        } else {
+                            "ok-service-equal"
+                        };
+                        rep.outcome(&format!("{fam}:{cls}"));
+                    }
+                    Some(f) => {
+                        rep.traces_validated += 1;
+                        rep.outcome(&format!("{fam}:{}", f.class));
+                        rep.count("failing_programs", 1);
+                        failures.lock().unwrap().push(Failure { case: case.clone(), did, fail: f, js: o.js, resp: o.resp });
+                    }
+                }
+            },
+        );
+        fam_stats.push(json!({"family": fname, "programs": n}));
+        rep.merge(r);
+    }
+
+    let hs = harness.into_inner().unwrap();
+    if !hs.is_empty() {
+        for h in &hs {
+            eprintln!("HARNESS-INCONSISTENCY: {h}");
+        }
+        machinery("the generator model, the front end's view and the mock conversion disagree (see above)");
+    }
+    for (fam, (n, ex)) in rejected.into_inner().unwrap() {
+        rep.notes.push(format!("family {fam}: {n} generated programs rejected by the front end (outside the domain), e.g. {ex}"));
+    }
+
+    // ---- attribute every failing program to the names that trigger it, pick minimal programs
+    let mut fl = failures.into_inner().unwrap();
+    fl.sort_by(|a, b| (a.did.len(), &a.did, a.case.family).cmp(&(b.did.len(), &b.did, b.case.family)));
+    fl.dedup_by(|a, b| a.did == b.did);
+    let keyed: Mutex<Vec<(usize, String, String, bool)>> = Mutex::new(vec![]);
+    let nfail = fl.len() as u64;
+    let r = ctx.par_range("attribution-and-recheck", nfail, 8, Node::spawn, |node, i, rep| {
+        let f = &fl[i as usize];
+        // same input once more => same observation
+        let again = pipeline(&f.did, Some(&f.case.prog.to_model()), node);
+        rep.count("node_evaluations", again.node_evals);
+        rep.count("compile_calls", again.compiles);
+        let stable = again.fail.as_ref() == Some(&f.fail);
+        let (trig, canon, evals) = names::attribute(&f.case, &f.fail, node);
+        rep.count("node_evaluations", evals);
+        rep.count("attribution_runs", evals);
+        let key = if trig.is_empty() {
+            format!("{}|{}|prog={}", f.fail.class, f.fail.kind, canon)
+        } else {
+            format!("{}|{}|{}", f.fail.class, f.fail.kind, trig.join(","))
+        };
+        keyed.lock().unwrap().push((i as usize, key, trig.join(","), stable));
+    });
+    rep.merge(r);
+    let mut keyed = keyed.into_inner().unwrap();
+    keyed.sort();
+    let mut seen_keys: BTreeMap<String, u64> = BTreeMap::new();
+    for (i, key, trig, stable) in &keyed {
+        let f = &fl[*i];
+        if !stable {
+            rep.violation(
+                &format!("unstable|{}", f.did),
+                "the same program gave two different observations".into(),
+                json!({"did": f.did, "class": "unstable"}),
+            );
+            continue;
+        }
+        let c = seen_keys.entry(key.clone()).or_insert(0);
+        *c += 1;
+        if *c > 1 {
+            // same failure class, same triggering names: the smaller program was recorded
+            continue;
+        }
+        rep.violation(
+            key,
+            format!("{} [{}] minimal program: {}", f.fail.detail, f.fail.class, f.did.replace('\n', " ")),
+            json!({
+                "did": f.did,
+                "class": f.fail.class,
+                "kind": f.fail.kind,
+                "detail": f.fail.detail,
+                "triggering_names": trig,
+                "family": f.case.family,
+                "js": f.js,
+                "node_response": if f.fail.class == "type-differs" || f.fail.class == "actor-not-service" { f.resp.clone().unwrap_or(Value::Null) } else { f.resp.as_ref().map(|r| json!({"stage": r["stage"], "name": r["name"], "message": r["message"]})).unwrap_or(Value::Null) },
+            }),
+        );
+    }
+    // violation_count counts distinct keys here; the number of failing programs is a counter
+    rep.violation_count = rep.violations.len() as u64;
+    let per_key: Vec<Value> = seen_keys.iter().map(|(k, n)| json!({"key": k, "failing_programs": n})).collect();
+
+    rep.sample(json!({"did": "type class = service {}; service : class", "expect": "idlFactory returns a service with no methods"}));
+    rep.sample(json!({"did": "type t = opt record { 0 : nat; 1 : t }; service : (t) -> { m : () -> () }", "expect": "init returns [t] with t recursive, reachable only from init"}));
+    let rule = "for every generated well-formed program: parse+check with the real front end, javascript::compile twice (identical, no panic); programs without actor: output is syntactically valid strict-mode JS; programs with actor: node evaluates the module against the mock IDL, no exception, idlFactory's result is the service type itself and is R3-equal to the program's service, init returns the class's init arg types in order (R3-equal each); object keys decoded as agent-js does (_N_ => id N, else Candid hash). non-trivial = actor present and at least one definition";
+    let assumptions = [
+        "R9: /verif/js/mock_idl.js mirrors the agent-js IDL surface used by the generator (constructors, Rec.fill/getType, Object.entries on field objects, Tuple => _i_ keys, idlLabelToId key decoding); agent-js semantics beyond type construction are out of scope",
+        "module text is evaluated as strict-mode script code after rewriting `export const` at line starts to `const` (module-only reserved word `await` is then an ordinary identifier)",
+        "the generator model (Prog::to_model) and the real front end's view agree on every program (checked for every program; disagreement is a machinery failure)",
+        "programs without an actor: only syntactic validity is required; their run-time behaviour is counted for information",
+    ];
+    let extra = json!({
+        "programs": total_programs,
+        "families": fam_stats,
+        "failing_programs_distinct": nfail,
+        "failing_programs_per_key": per_key,
+        "def_name_alphabet": alpha.def_names.len(),
+        "label_alphabet": alpha.labels.len(),
+        "names_rejected_by_frontend_as_definition_names": alpha.rejected_defs,
+    });
+    let code = finish(&ctx, rep, rule, &assumptions, extra);
     std::process::exit(code);
 }
